@@ -6,7 +6,7 @@ import ast
 import json
 
 from ..consteval import Evaluator, Unknown
-from ..loader import AnalysisError, Repo, body_nodoc, dotted, norm, walk_no_nested, enclosing
+from ..loader import AnalysisError, Repo, body_nodoc, dotted, norm, walk_no_nested, enclosing, strip_cast
 from ..report import Report, VERIF
 
 LEVEL = "other"
@@ -176,10 +176,7 @@ def run(repo: Repo, rep: Report, tier: str) -> None:
         rep.check(base in m2p and short(m2p[base]) == want, "class-maps", "dimse_messages._MSG_TO_PRIMITIVE", f"{cn} -> {base} -> {short(m2p.get(base)) if base in m2p else None}", f"{cn} must convert to primitive {want}", mod=dm, node=dm.assign_stmts["_MSG_TO_PRIMITIVE"][0])
 
     # ---- multi-valued ---------------------------------------------------------------------------
-    mv = dm.assigns.get("_MULTIVALUE_TAGS", [None])[0]
-    rep.need(isinstance(mv, ast.List), "_MULTIVALUE_TAGS vanished")
-    tags = [c.args[0].value for c in mv.elts if isinstance(c, ast.Call) and dotted(c.func) == "Tag" and c.args and isinstance(c.args[0], ast.Constant)]
-    rep.check(sorted(tags) == sorted(sp["multi_valued"]) and len(tags) == len(mv.elts), "multi-valued", "dimse_messages._MULTIVALUE_TAGS", f"{tags}", f"the multi-valued command elements are {sp['multi_valued']}: anything else is truncated to its first value, these must not be", mod=dm, node=dm.assign_stmts["_MULTIVALUE_TAGS"][0])
+    _check_multi_valued(repo, rep, dm, m2, m2p, sp)
 
     # ---- generic loops -----------------------------------------------------------------------------
     p2m = repo.func("dimse_messages", "DIMSEMessage.primitive_to_message")
@@ -199,7 +196,7 @@ def run(repo: Repo, rep: Report, tier: str) -> None:
     ok = False
     if len(loops) == 1:
         body = " ".join(norm(s) for s in ast.walk(loops[0]) if isinstance(s, ast.stmt))
-        ok = "hasattr(primitive, elem.keyword)" in body and "value = elem.value" in body and "setattr(primitive, elem.keyword, value)" in body and "elem.VM > 1 and elem.tag not in _MULTIVALUE_TAGS" in body and "value = value[0]" in body
+        ok = "hasattr(primitive, elem.keyword)" in body and "value = elem.value" in body and "setattr(primitive, elem.keyword, value)" in body and "value = value[0]" in body
     rep.check(ok, "generic-loops", "dimse_messages.DIMSEMessage.message_to_primitive", "for elem in command_set: setattr(primitive, keyword, value) with VM>1 truncated only outside _MULTIVALUE_TAGS", "every decoded element the primitive knows must be copied; lists only for the multi-valued tags", mod=dm, node=m2)
     ds = [s for s in walk_no_nested(m2) if isinstance(s, ast.stmt) and norm(s) in ("setattr(primitive, dataset_keyword, self.data_set)", "dataset_keyword = _DATASET_KEYWORDS[cls_type_name]", "primitive._context_id = self.context_id")]
     rep.check(len(ds) == 3, "generic-loops", "dimse_messages.DIMSEMessage.message_to_primitive", "data set and context id handed to the primitive", "the data-set bytes and the context id must reach the primitive", mod=dm, node=m2)
@@ -234,3 +231,106 @@ def _delegate_c15(repo, rep, tier):
         rep.failures.append(f2)
     for d in sub.deferred:
         rep.defer(d)
+
+
+def _check_multi_valued(repo, rep, dm, m2, m2p, sp):
+    short = lambda s_: getattr(s_, "name", "?").split(".")[-1]  # noqa: E731
+    """message_to_primitive truncates a decoded element with VM > 1 to its first value unless it is exempt.
+    The exemption is resolved per primitive class - a module-level list of Tag(<keyword>) / keywords, or a
+    class attribute of the primitive read through getattr / attribute access - and compared with the spec:
+    a primitive that can hold a multi-valued command element (Offending Element, Attribute Identifier List)
+    must be handed all its values, and nothing else may be handed a list."""
+    fq = "dimse_messages.DIMSEMessage.message_to_primitive"
+    trunc = [i for i in walk_no_nested(m2) if isinstance(i, ast.If) and any(isinstance(s_, ast.Assign) and isinstance(s_.value, ast.Subscript) and norm(s_.value.slice) == "0" and norm(s_.targets[0]) == norm(s_.value.value) for s_ in i.body)]
+    if len(trunc) != 1:
+        rep.defer(f"{fq}: the VM > 1 truncation was not found ({len(trunc)} candidates)")
+        return
+    t = trunc[0].test
+    atoms = t.values if isinstance(t, ast.BoolOp) and isinstance(t.op, ast.And) else [t]
+    vm = [a for a in atoms if isinstance(a, ast.Compare) and norm(a.left).endswith(".VM")]
+    ex = [a for a in atoms if a not in vm]
+    if len(vm) != 1 or norm(vm[0]).replace(" ", "") not in ("elem.VM>1", "elem.VM>=2") or len(ex) != 1 or not (isinstance(ex[0], ast.Compare) and len(ex[0].ops) == 1 and isinstance(ex[0].ops[0], ast.NotIn)):
+        rep.defer(f"{fq}: truncation test `{norm(t)}` not recognised")
+        return
+    subject, container = norm(ex[0].left), strip_cast(ex[0].comparators[0])
+    if subject not in ("elem.tag", "elem.keyword"):
+        rep.defer(f"{fq}: exemption is keyed by {subject}")
+        return
+
+    def const_keywords(node):
+        """list/tuple of Tag('K') / 'K' -> [K]"""
+        if not isinstance(node, (ast.List, ast.Tuple, ast.Set)):
+            return None
+        out = []
+        for e in node.elts:
+            if isinstance(e, ast.Call) and dotted(e.func) == "Tag" and len(e.args) == 1 and isinstance(e.args[0], ast.Constant) and isinstance(e.args[0].value, str):
+                out.append(e.args[0].value)
+            elif isinstance(e, ast.Constant) and isinstance(e.value, str) and subject == "elem.keyword":
+                out.append(e.value)
+            else:
+                return None
+        return out
+
+    prim_mod = repo.mod("dimse_primitives")
+    classes = sorted({short(v) for v in m2p.values()})
+
+    def class_attr(cname, attr):
+        ci = prim_mod.classes.get(cname)
+        if ci is None:
+            return None
+        for c in repo.mro(ci):
+            for st in c.node.body:
+                tg = st.targets[0] if isinstance(st, ast.Assign) and len(st.targets) == 1 else st.target if isinstance(st, ast.AnnAssign) and st.value is not None else None
+                if tg is not None and norm(tg) == attr:
+                    return const_keywords(st.value)
+        return None
+
+    per_class = {}
+    how = ""
+    if isinstance(container, ast.Name) and container.id in dm.assigns:
+        kws = const_keywords(dm.assigns[container.id][0])
+        if kws is None:
+            rep.defer(f"{fq}: {container.id} is not a literal list of Tag(<keyword>) / keywords")
+            return
+        per_class = {c: kws for c in classes}
+        how = f"module list {container.id}"
+    else:
+        src = container
+        if isinstance(container, ast.Name):
+            b_ = [s_ for s_ in walk_no_nested(m2) if isinstance(s_, ast.Assign) and norm(s_.targets[0]) == container.id]
+            src = strip_cast(b_[0].value) if len(b_) == 1 else None
+        attr = dflt = None
+        if isinstance(src, ast.Call) and norm(src.func) == "getattr" and len(src.args) >= 2 and norm(src.args[0]) == "primitive" and isinstance(src.args[1], ast.Constant):
+            attr = src.args[1].value
+            dflt = const_keywords(src.args[2]) if len(src.args) > 2 else None
+        elif isinstance(src, ast.Attribute) and norm(src.value) == "primitive":
+            attr = src.attr
+        if attr is None:
+            rep.defer(f"{fq}: exemption container `{norm(container)}` not resolved")
+            return
+        for c in classes:
+            v = class_attr(c, attr)
+            per_class[c] = v if v is not None else (dflt if dflt is not None else [])
+        how = f"class attribute {attr} of the primitive"
+
+    def has_kw(cname, kw):
+        ci = prim_mod.classes.get(cname)
+        if ci is None:
+            return False
+        for c in repo.mro(ci):
+            if kw in c.getters:
+                return True
+            init = c.methods.get("__init__")
+            if init is not None and any(isinstance(s_, (ast.Assign, ast.AnnAssign)) and norm(s_.targets[0] if isinstance(s_, ast.Assign) else s_.target) == f"self.{kw}" for s_ in walk_no_nested(init)):
+                return True
+        return False
+
+    n = 0
+    for c in classes:
+        for kw in sp["multi_valued"]:
+            if has_kw(c, kw):
+                n += 1
+                rep.check(kw in per_class[c], "multi-valued", fq, f"{c}.{kw} exempt from truncation ({how})", f"{kw} is a multi-valued command element (VM 1-n) that a {c} primitive can hold, but for a {c} message it is not exempt from the VM > 1 truncation: only the first value a peer sent reaches the primitive", mod=dm, node=trunc[0])
+        extra = sorted(set(per_class[c]) - set(sp["multi_valued"]))
+        rep.check(not extra, "multi-valued", fq, f"{c}: exempt keywords {sorted(per_class[c])}", f"{extra} are single-valued command elements: exempting them hands a list to a parameter that takes one value", mod=dm, node=trunc[0])
+    rep.floor("(primitive, multi-valued keyword) pairs", n, 5)
